@@ -242,6 +242,7 @@ func c20BuildA(c *fw.Ctx, n int) (root *c20N, desc string, cyc, shared bool) {
 }
 
 func c20BuildB(c *fw.Ctx, n int) (root *c20B, desc string, cyc, shared bool) {
+	allowOpen := c.Rng.Intn(10) == 0 || c.Idx < 6 // only some graphs enter the known-finding region (always the directed ones)
 	bs := make([]*c20B, n)
 	for i := range bs {
 		bs[i] = &c20B{Name: fmt.Sprintf("b%d", i)}
@@ -255,13 +256,23 @@ func c20BuildB(c *fw.Ctx, n int) (root *c20B, desc string, cyc, shared bool) {
 			desc += fmt.Sprintf("%d.Next>back ", i)
 		}
 		k := c.Rng.Intn(3)
+		if c.Idx < 6 && i == 0 {
+			k = 1
+		}
 		b.Kids = make([]c20C, k)
 		for j := range b.Kids {
 			kid := &b.Kids[j]
 			kid.W = float64(i) + float64(j)/4
-			switch c.Rng.Intn(12) {
+			pick := c.Rng.Intn(12)
+			if c.Idx < 6 && j == 0 && i == 0 {
+				pick = 0
+			}
+			switch pick {
 			case 0:
 				// reference to an object that is still open in document order (known-finding region)
+				if !allowOpen {
+					break
+				}
 				t := c.Rng.Intn(i + 1)
 				kid.Back = bs[t]
 				cyc = true
